@@ -11,7 +11,8 @@
       `CHARSET[d]` with `d ≥ 32`           (IndexError, `bech32_encode`)
       `data[0]` on an empty list            (IndexError, `decode`)         — proved dead in Props/C11
       `[witver] + None`                     (TypeError,  `encode`)         — proved dead in Props/C11
-      `str()` of an object whose `__str__` returns None (TypeError, `CBech32Data.__str__`).
+      `str()` of an object whose `__str__` returns None (TypeError, `CBech32Data.__str__`);
+      `bytes(witprog)` with an element ≥ 256 (ValueError, `from_bytes`) — dead after `decode`, proved in Props/C11.
   Mathlib-free (linked into btcmodel).
 -/
 import BtcVerif.Basic.Outcome
@@ -114,8 +115,10 @@ def bech32Decode (bech : List Char) : Option (List Char × List Nat) :=
 /-! ### convertbits -/
 
 /-- `while bits >= tobits: bits -= tobits; ret.append((acc >> bits) & maxv)`.
-    Each iteration removes `tobits ≥ 1` from `bits`, so `fuel = bits` iterations suffice
-    (with `tobits = 0` CPython would not terminate; both call sites use 5 and 8). -/
+    With `tobits = 0` CPython does not terminate; `convertbits` therefore carries the explicit
+    precondition `0 < tobits` (both call sites use the literals 5 and 8).  Under it each iteration
+    removes at least one from `bits`, so `fuel = bits` iterations suffice: `Bech32.drain_exits` proves
+    that the loop is always left through its own exit test (`bits < tobits`), never by running out of fuel. -/
 def drain (tobits maxv acc : Nat) : (fuel bits : Nat) → List Nat → Nat × List Nat
   | 0, bits, ret => (bits, ret)
   | fuel + 1, bits, ret =>
@@ -140,8 +143,9 @@ def convertLoop (frombits tobits : Nat) (pad : Bool) (maxv maxAcc : Nat) :
       let (bits, ret) := drain tobits maxv acc bits bits ret
       convertLoop frombits tobits pad maxv maxAcc rest acc bits ret
 
-/-- `convertbits(data, frombits, tobits, pad)` -/
-def convertbits (data : List Nat) (frombits tobits : Nat) (pad : Bool := true) : Option (List Nat) :=
+/-- `convertbits(data, frombits, tobits, pad)`; precondition `0 < tobits` (see `drain`) -/
+def convertbits (data : List Nat) (frombits tobits : Nat) (pad : Bool := true)
+    (_htb : 0 < tobits := by decide) : Option (List Nat) :=
   let maxv := (1 <<< tobits) - 1
   let maxAcc := (1 <<< (frombits + tobits - 1)) - 1
   convertLoop frombits tobits pad maxv maxAcc data 0 0 []
@@ -194,10 +198,17 @@ def encode (hrp : List Char) (witver : Nat) (witprog : Bytes) : Option (List Cha
 
 /-! ### bitcoin/bech32.py — CBech32Data under the selected chain's HRP -/
 
+/-- `bytes.__new__(cls, witprog)` for a list of ints: ValueError for an element ≥ 256 -/
+def bytesOfInts (l : List Nat) : Res Bytes :=
+  if l.all (· < 256) then .ok (l.map UInt8.ofNat) else .error .valueerr
+
 /-- `CBech32Data.from_bytes(witver, witprog)`: the object is the pair (witver, bytes) -/
 def fromBytes (witver : Nat) (witprog : List Nat) : Res (Nat × Bytes) :=
   if !(witver ≤ 16) then .error .valueerr                    -- `0 <= witver` holds for a Nat
-  else .ok (witver, witprog.map UInt8.ofNat)                  -- bytes.__new__(cls, witprog)
+  else
+    match bytesOfInts witprog with                            -- bytes.__new__(cls, witprog)
+    | .error e => .error e
+    | .ok b => .ok (witver, b)
 
 /-- `CBech32Data.__new__(cls, s)` with `bitcoin.params.BECH32_HRP = hrp` -/
 def cbech32New (hrp s : List Char) : Res (Nat × Bytes) :=
